@@ -170,9 +170,13 @@ def body_formatter(ctx, region):
 
 class SymMapping:
     """dict-like whose membership of '_FillValue' is a symbolic Bool (forks when tested)."""
-    def __init__(self, has_fill):
+    def __init__(self, has_fill, value=None):
         self.has_fill = has_fill
+        self.value = value          # the fill value itself (symbolic: zero is a legal fill value)
         self.set = {}
+
+    def get(self, key, default=None):
+        return self[key] if key in self else default
 
     def __contains__(self, key):
         if key in self.set:
@@ -185,7 +189,11 @@ class SymMapping:
         self.set[key] = value
 
     def __getitem__(self, key):
-        return self.set[key]
+        if key in self.set:
+            return self.set[key]
+        if key == '_FillValue' and bool(self.has_fill):
+            return self.value
+        raise KeyError(key)
 
 
 class FakeVariable:
@@ -202,8 +210,9 @@ class FakeArray:
 def body_fill(ctx, dtype):
     from emsarray import utils
     in_enc, in_attrs = ctx.bool('in_encoding'), ctx.bool('in_attrs')
+    fill_enc, fill_attrs = ctx.real('fill_in_encoding', hint=7.0), ctx.real('fill_in_attrs', hint=-999.0)
     if ctx.symbolic:
-        var = FakeVariable(numpy.dtype(dtype), SymMapping(in_enc), SymMapping(in_attrs))
+        var = FakeVariable(numpy.dtype(dtype), SymMapping(in_enc, fill_enc), SymMapping(in_attrs, fill_attrs))
         utils.disable_default_fill_value(FakeArray(var))
         was_set = '_FillValue' in var.encoding.set
         value = var.encoding.set.get('_FillValue', 'unset')
@@ -212,9 +221,9 @@ def body_fill(ctx, dtype):
         import xarray
         da = xarray.DataArray(numpy.zeros(2, dtype=dtype), dims=('x',))
         if in_enc:
-            da.variable.encoding['_FillValue'] = 7
+            da.variable.encoding['_FillValue'] = numpy.dtype(dtype).type(fill_enc) if numpy.dtype(dtype).kind in 'iuf' else fill_enc
         if in_attrs:
-            da.variable.attrs['_FillValue'] = 7
+            da.variable.attrs['_FillValue'] = numpy.dtype(dtype).type(fill_attrs) if numpy.dtype(dtype).kind in 'iuf' else fill_attrs
         before_enc, before_attrs = dict(da.variable.encoding), dict(da.variable.attrs)
         utils.disable_default_fill_value(da)
         enc = da.variable.encoding
